@@ -57,6 +57,9 @@ AlgClauses ==
      void_sub_right       |-> Same(O("a_sub_void"), a),
      void_sub_left        |-> Same(O("void_sub_a"), Mul(a, -1)),
      add_in_place         |-> Has("a_iadd_b") => Same(O("a_iadd_b"), AddInPlace(a, b)),
+     add_in_place_void    |-> Has("a_iadd_void") => (Same(O("a_iadd_void"), a) /\ Same(O("a_iadd_none"), a)),   \* a.add(VoidResult()), a.add(None)
+     \* a * np.int64(s), a * np.float32(s), (a * 2) * np.float64(0.5)
+     mul_numpy_scalars    |-> Has("a_npi") => (Same(O("a_npi"), Mul(a, s)) /\ Same(O("a_npf"), Mul(a, s)) /\ SameVector(O("half_2a"), a)),
      zero_left_neutral    |-> Has("zero_a") => Same(O("zero_a"), a),               \* 0 + a  (sum([...]))
      none_right_neutral   |-> Has("a_none") => Same(O("a_none"), a) ]
 
